@@ -43,7 +43,7 @@ func init() {
 	families["cost.wide"] = &Family{
 		Gen: func(r *Rand, tier string, emit func(sx.Sx)) {
 			genCost("http", r, tier, func(c sx.Sx) {
-				if len(c.List) >= 7 {
+				if len(c.List) >= 7 && !strings.Contains(c.List[3].Atom, "hpack") {
 					emit(c)
 				}
 			})
@@ -352,6 +352,10 @@ func genCost(proto string, r *Rand, tier string, emit func(sx.Sx)) {
 			if tier == "thorough" {
 				ps = append(ps, [2]int{4000, 32000})
 			}
+			if g.label == "h2-hpack-repeat" {
+				// both sizes beyond the library's 16 MB cut of the unchanged code: there the two runs cost the same
+				ps = [][2]int{{5000, 15000}}
+			}
 		}
 		for _, kk := range ps {
 			c := []sx.Sx{sx.A(g.side), sx.L(sx.B(g.build(kk[1]))), sx.A("eof"), sx.A(fmt.Sprintf("growth-%s=%d", g.label, kk[1])), sx.L(sx.B(g.build(kk[0])))}
@@ -418,6 +422,15 @@ type growthShape struct {
 func growthReply(proto, label string) []byte {
 	if proto != "http" {
 		return nil
+	}
+	if label == "h2-hpack-repeat" {
+		var b bytes.Buffer
+		fr := http2.NewFramer(&b, nil)
+		fr.WriteSettings()
+		var hb bytes.Buffer
+		hpack.NewEncoder(&hb).WriteField(hpack.HeaderField{Name: ":status", Value: "200"})
+		fr.WriteHeaders(http2.HeadersFrameParam{StreamID: 1, BlockFragment: hb.Bytes(), EndHeaders: true, EndStream: true})
+		return b.Bytes()
 	}
 	if strings.HasPrefix(label, "distinct-") || label == "headers" || label == "same-cookie" || label == "chunks" || label == "query-params" {
 		if label == "distinct-response-headers" {
@@ -641,6 +654,34 @@ func growthShapes(proto string) []growthShape {
 						hb.Reset()
 						enc.WriteField(hpack.HeaderField{Name: "x-more", Value: "v"})
 						fr.WriteHeaders(http2.HeadersFrameParam{StreamID: 1, BlockFragment: append([]byte{}, hb.Bytes()...), EndHeaders: true})
+					}
+				})
+			}},
+			{"h2-hpack-repeat", "c", func(k int) []byte {
+				// one request whose header block inserts a k-byte value into the dynamic table and then repeats it by its
+				// one-byte index k times: about 2k bytes on the wire, k*k bytes of header list (x/net cuts the list of a block
+				// at 16 MB by default - the recorded finding h2-hpack-expansion; without that cut the cost is quadratic)
+				return h2(func(fr *http2.Framer, enc *hpack.Encoder, hb *bytes.Buffer) {
+					enc.SetMaxDynamicTableSizeLimit(65536) // the peer announced a 64 KB table: the value is indexed
+					enc.SetMaxDynamicTableSize(65536)
+					block := append([]byte{}, reqHeaders(enc, hb, "GET", 0)...)
+					hb.Reset()
+					enc.WriteField(hpack.HeaderField{Name: "x-big", Value: strings.Repeat("a", k)})
+					block = append(block, hb.Bytes()...)
+					block = append(block, bytes.Repeat([]byte{0xBE}, k)...)
+					first := true
+					for len(block) > 0 {
+						n := len(block)
+						if n > 16000 {
+							n = 16000
+						}
+						if first {
+							fr.WriteHeaders(http2.HeadersFrameParam{StreamID: 1, BlockFragment: block[:n], EndHeaders: n == len(block), EndStream: true})
+							first = false
+						} else {
+							fr.WriteContinuation(1, n == len(block), block[:n])
+						}
+						block = block[n:]
 					}
 				})
 			}},
